@@ -36,8 +36,25 @@ NOTES = {
  'C08-differential-sum-mode-waits-for-sum': 'sum-distrust differential with both sides known and no sum reading at all',
  'C19-nostd-time-div-shift': 'no_std builds only: negative Time / power-of-two DimensionlessInteger rounds down instead of toward zero',
  'C16-axle-get-terminal-off-by-one': '`Axle<N>::get_terminal(N)` returns a reference one past the terminal array instead of panicking',
+ 'C03-latest-all-at-i64-min': 'newest-of whose present candidates are ALL stamped exactly i64::MIN (sentinel instead of Option)',
+ 'C08-axle-seed-time-default': 'axle whose newest contributing read is stamped before Time(0) (seed of the max is Time::default())',
+ 'C09-equal-states-keep-own-stamp': 'both linked terminals hold bit-equal states (also +0.0 / -0.0) and the partner\'s stamp is newer',
+ 'C10-derivative-plateau-unit': 'DerivativeStream over Quantity: two consecutive equal values (plateau) return the input unit, not unit/s',
+ 'C11-drops-samples-closer-than-epsilon': 'CommandPID: a sample less than f32::EPSILON seconds (120 ns) after the previous one is silently dropped',
+ 'C13-axle-skips-identical-value': 'axle: a newer command whose value equals the one already relayed keeps the old stamp',
+ 'C15-follow-get-or-insert': 'follow() while a followed getter is already installed keeps the old one (`get_or_insert`)',
+ 'C20-encoder-swallows-fromnone': 'GetterStateDeviceWrapper: inner getter returns `Error::FromNone` specifically (treated as absent)',
 }
 HISTORY = {
+ 'C11-drops-samples-closer-than-epsilon': 'MISSED at both tiers: the shortest sampling interval the node generator produced was 1 us (the bound C04 and C10 state), '
+   'but C11 and C12 state no lower bound. A sixth of the cpid / EWMA runs now sample at 1 ns .. 1 us spacing with the 118..121 ns neighbourhood as '
+   'special values. Caught at quick tier since.',
+ 'C03-latest-all-at-i64-min': 'MISSED by C03 and C02 at both tiers: "near-extreme" leaf stamps were i64::MIN + 1000 +- 500, never the extreme itself (the Datum '
+   'operator world did use it). The stream world now also anchors extreme runs at exactly i64::MIN / i64::MAX (saturating neighbours), device stamps '
+   'may start at i64::MIN, and a newest-of that returns nothing although candidates exist is reported under C03 as well as C02. Caught at quick tier since.',
+ 'C20-encoder-swallows-fromnone': 'MISSED at both tiers: every injected error was `Error::Other(1|2)`; the crate\'s own `Error::FromNone` variant was only ever '
+   '*produced* by NoneToError, never *injected*. Error code 3 now injects `Error::FromNone` at every fault point of every world (leaf getters, clocks, '
+   'inner devices, motors, settables, followed getters). Caught at quick tier since.',
  'C16-axle-get-terminal-off-by-one': 'MISSED at both tiers: no program of the harness ever asked an axle for a terminal it does not have. The Miri axle '
    'cases now probe `get_terminal(N)`, `N+1` and `usize::MAX` and require a panic; Miri reports the out-of-bounds reference. Caught at quick tier since.',
  'C19-nostd-time-div-shift': 'caught only by the THOROUGH tier at first (through a motion profile whose first phase lasts an odd number of nanoseconds, a '
